@@ -74,6 +74,14 @@ CANARIES = [
      "            query_str = tokens_to_string(p.raw_query1)\n            if_query_str = tokens_to_string(p.raw_query0)", 'C16.store.create_job'),
     ('c16-lexer-float-normalise', 'C16', 'mindsdb_sql/parser/dialects/mindsdb/lexer.py', "    def FLOAT(self, t):\n        return t", "    def FLOAT(self, t):\n        t.value = t.value.rstrip('0')\n        return t", 'C16.raw.FLOAT'),
     ('c16-token-left-out', 'C16', 'mindsdb_sql/parser/dialects/mindsdb/parser.py', "all_tokens_list.remove('LPAREN')", "all_tokens_list.remove('LPAREN')\nall_tokens_list.remove('MODULO')", 'C16.alltokens'),
+    ('c07-no-doubling', 'C07', 'mindsdb_sql/render/sqlalchemy_render.py',
+     "                return \"'{}'\".format(str(value).replace(\"'\", \"''\"))\n\n            return super(LiteralCompiler, self).render_literal_value(value, type_)\n\n    return str(LiteralCompiler(dialect, statement, compile_kwargs={'literal_binds': True}))\n\n\ndef render_ddl_query",
+     "                return \"'{}'\".format(str(value))\n\n            return super(LiteralCompiler, self).render_literal_value(value, type_)\n\n    return str(LiteralCompiler(dialect, statement, compile_kwargs={'literal_binds': True}))\n\n\ndef render_ddl_query", 'C07.lit.dml.sqlite.squote'),
+    ('c07-backslash-quote', 'C07', 'mindsdb_sql/render/sqlalchemy_render.py',
+     "                return \"'{}'\".format(str(value).replace(\"'\", \"''\"))\n\n            return super(LiteralCompiler, self).render_literal_value(value, type_)\n\n    return str(LiteralCompiler(dialect, statement, compile_kwargs={'literal_binds': True}))\n\n\ndef render_ddl_query",
+     "                return \"'{}'\".format(str(value).replace(\"'\", \"\\\\'\"))\n\n            return super(LiteralCompiler, self).render_literal_value(value, type_)\n\n    return str(LiteralCompiler(dialect, statement, compile_kwargs={'literal_binds': True}))\n\n\ndef render_ddl_query", 'C07.lit.dml.postgresql.squote'),
+    ('c07-literal-lower', 'C07', 'mindsdb_sql/render/sqlalchemy_render.py', "            col = sa.literal(t.value)", "            col = sa.literal(t.value if not isinstance(t.value, str) else t.value.strip())", 'C07.route.constant'),
+    ('c07-paramstyle', 'C07', 'mindsdb_sql/render/sqlalchemy_render.py', 'self.dialect = dialect(paramstyle="named")', 'self.dialect = dialect()', 'C07.route.paramstyle'),
 ]
 
 
